@@ -263,13 +263,8 @@ def run_config(batch, rec):
                 dr.save_dataset)
     rec.assume_note("file system answers are solver booleans constrained only by consistency (not file and directory at once; "
                     "non-empty implies directory; parent-is-a-file implies target absent)")
-    for cfg in batch["items"]:
-        if cfg["kind"] == "runs":
-            _run_runs(cfg, rec)
-        elif cfg["kind"] == "protect":
-            _run_protect(rec)
-        else:
-            _run_item(cfg, rec)
+    rec.each(batch["items"], lambda cfg: _run_runs(cfg, rec) if cfg["kind"] == "runs" else _run_protect(rec) if cfg["kind"] == "protect"
+             else _run_item(cfg, rec))
 
 
 # ------------------------------------------------------------------------------------------------ float side: real FS replay
